@@ -4,7 +4,7 @@ PID = "C13"
 
 
 def run(tier, seed):
-    return exec_common.run_exec(PID, tier, seed, 5, scns=("migrate", "migrace"))
+    return exec_common.run_exec(PID, tier, seed, 5, scns=("migrate", "migrace"), pre=exec_common.mig_proto_model)
 
 
 def replay(path):
